@@ -48,8 +48,17 @@ pub fn testcases() -> FileSet {
 // consumers, by the suffix `p` of the provider file it refers to.
 // ---------------------------------------------------------------------------------------------
 
-pub const PROVIDERS: &[&str] = &["pkg", "bus", "genpkg", "leaf", "genmod", "genfn", "clk"];
-pub const CONSUMERS: &[&str] = &["top", "sv", "usebus", "usegen", "misc", "ifdef", "usefn", "cdc"];
+pub const PROVIDERS: &[&str] = &["pkg", "bus", "genpkg", "leaf", "genmod", "genfn", "clk", "mix", "mixsrc"];
+pub const CONSUMERS: &[&str] = &[
+    "top", "sv", "usebus", "usegen", "misc", "ifdef", "usefn", "cdc",
+    // one template per pending list / table a fragment carries (error-free variants)
+    "msbok", "connok", "bindok", "infer", "unused", "imp",
+    // interface mixing in another file's interface whose modports use default member lists
+    "mixuse",
+];
+/// Variants whose post_pass1 / post_pass2 diagnostic depends on the pending entry (the project
+/// is then not error-free: used by the `fragment` domain only, spec `gene:`).
+pub const CONSUMERS_ERR: &[&str] = &["msbbad", "connbad", "cyc", "undef", "bindbad"];
 
 pub fn provider(kind: &str, s: &str, r: &mut Rng) -> String {
     let w = *r.pick(&[1u32, 2, 8, 31, 32, 33, 64]);
@@ -182,6 +191,86 @@ pub module GenM{s}::<T: ProtoM{s}> (
 }}
 "#
         ),
+        // one file that leaves pairwise different numbers of pending imports (1), binds (2),
+        // msb entries (3+) and connect operations (5+): every later file then sees pairwise
+        // different watermark values
+        "mix" => {
+            let extra = s.parse::<usize>().unwrap_or(0) % 3;
+            let mut msbs = String::new();
+            for i in 0..(1 + extra) {
+                msbs.push_str(&format!("    let _m{i}: logic = a[msb - {i}][msb];\n"));
+            }
+            let mut conns = String::new();
+            for i in 0..(5 + 2 * extra) {
+                conns.push_str(&format!("    inst ip{i}: MixIf{s};\n    inst iq{i}: MixIf{s};\n    connect ip{i}.master <> iq{i}.slave;\n"));
+            }
+            format!(
+                r#"package MixP{s} {{
+    const A: u32 = 3;
+}}
+
+import MixP{s}::A;
+
+interface MixIf{s} {{
+    var a: logic;
+    modport master {{
+        a: output,
+    }}
+    modport slave {{
+        a: input,
+    }}
+}}
+
+module MixT{s} (
+    i_clk: input clock,
+    i_rst: input reset,
+) {{
+    var x: logic;
+    assign x = 0;
+}}
+
+module MixC{s} (
+    i_clk: input clock,
+    i_rst: input reset,
+    v    : input logic,
+) {{}}
+
+bind MixT{s} <- u_c0: MixC{s} (
+    i_clk     ,
+    i_rst     ,
+    v    : x  ,
+);
+
+bind MixT{s} <- u_c1: MixC{s} (
+    i_clk     ,
+    i_rst     ,
+    v    : x  ,
+);
+
+module Mix{s} {{
+    let a: logic<A, 8> = 1;
+    let _mm: logic<8> = a[msb];
+{msbs}{conns}}}
+"#
+            )
+        }
+        // mixin source: modports with default member lists (`..input`)
+        "mixsrc" => format!(
+            r#"/// mixin source {s}
+pub interface MixSrc{s} {{
+    var a: logic<4>;
+    var b: logic   ;
+
+    modport mp_src {{
+        ..input
+    }}
+    modport mp_part {{
+        a: output,
+        ..input
+    }}
+}}
+"#
+        ),
         "clk" => format!(
             r#"pub module Clk{s} (
     i_clk_a: input  'a clock,
@@ -209,6 +298,8 @@ pub fn needs(kind: &str) -> &'static [&'static str] {
         "usegen" => &["genmod", "genpkg"],
         "usefn" => &["genfn"],
         "cdc" => &["clk"],
+        "imp" => &["pkg"],
+        "mixuse" => &["mixsrc"],
         _ => &[],
     }
 }
@@ -421,6 +512,236 @@ endmodule
 }}}}}}
 "#
         ),
+        // ---- msb_list: `x[msb]` / `x[lsb]` selects; check_msb fills msb_table --------------
+        "msbok" | "msbbad" => {
+            let rep = s.parse::<usize>().unwrap_or(0) % 3 + 1;
+            let mut body = String::new();
+            for i in 0..rep {
+                body.push_str(&format!("    let _m{i}: logic = a[msb - {i}][msb:lsb + 1];\n"));
+            }
+            let bad = if kind == "msbbad" {
+                // msb of an opaque SV type cannot be resolved: UnknownMsb from post_pass1
+                "    var q: $sv::SvType;\n    let _bad: logic = q[msb];\n"
+            } else {
+                ""
+            };
+            format!(
+                r#"module Msb{s} (
+    c: input logic<30, 40>,
+) {{
+    const WIDTH0: u32 = 10;
+    let a: logic<WIDTH0, 20> = 1;
+{body}{bad}    let _z: logic = c[msb][lsb];
+}}
+"#
+            )
+        }
+        // ---- connect_list: `<>` declarations and statements; check_connect ---------------------
+        "connok" | "connbad" => {
+            let rep = s.parse::<usize>().unwrap_or(0) % 2 + 1;
+            let mut insts = String::new();
+            let mut conns = String::new();
+            for i in 0..rep {
+                insts.push_str(&format!("    inst a{i}_if: ConnIf{s};\n    inst b{i}_if: ConnIf{s};\n"));
+                conns.push_str(&format!("    connect a{i}_if.master <> b{i}_if.slave;\n"));
+            }
+            let bad = if kind == "connbad" {
+                // an interface array is not a connect operand: InvalidConnectOperand from post_pass1
+                format!("    inst x_if: ConnIf{s} [2];\n    inst y_if: ConnIf{s};\n    connect x_if.master <> y_if.slave;\n")
+            } else {
+                String::new()
+            };
+            format!(
+                r#"interface ConnIf{s} {{
+    var a: logic   ;
+    var d: logic<4>;
+    modport master {{
+        a: output,
+        d: output,
+    }}
+    modport slave {{
+        ..converse(master)
+    }}
+}}
+
+module Conn{s} {{
+{insts}{conns}{bad}    inst z_if: ConnIf{s};
+    always_comb {{
+        z_if.master <> 0;
+    }}
+}}
+"#
+            )
+        }
+        // ---- bind_list: apply_bind adds the instance to the target module ----------------------
+        "bindok" | "bindbad" => {
+            let target = if kind == "bindbad" { format!("BindMissing{s}") } else { format!("BindTgt{s}") };
+            format!(
+                r#"module BindTgt{s} (
+    i_clk: input clock,
+    i_rst: input reset,
+) {{
+    var x: logic;
+    assign x = 0;
+}}
+
+module BindChk{s} (
+    i_clk: input clock,
+    i_rst: input reset,
+    v    : input logic,
+) {{}}
+
+/// bound checker
+bind {target} <- u_chk: BindChk{s} (
+    i_clk     ,
+    i_rst     ,
+    v    : x  ,
+);
+"#
+            )
+        }
+        // ---- generic_inference pending: generic argument inferred from the argument width -------
+        "infer" => format!(
+            r#"module Infer{s} (
+    value: input logic<8>,
+) {{
+    function FuncId::<T: u32> (
+        x: input logic<T>,
+    ) -> logic<T> {{
+        return x;
+    }}
+    let _a : logic<16> = 0;
+    let _r1: logic<8>  = FuncId(value);
+    let _r2: logic<16> = FuncId(_a);
+}}
+"#
+        ),
+        // ---- references + attribute table: unused-variable check of post_pass2 -----------------
+        "unused" => format!(
+            r#"module Unused{s} (
+    i_a: input  logic,
+    o_a: output logic,
+) {{
+    var used  : logic;
+    var unused: logic;
+    #[allow(unused_variable)]
+    var quiet : logic;
+    assign used = i_a;
+    assign o_a  = used;
+    let _k: logic<8> = 8'hA5 + 8'd3 + 'x + 8'b1010_0101;
+}}
+"#
+        ),
+        // ---- import_list: three imports; the body resolves only through them -------------------
+        "imp" => {
+            let pk = g("pkg");
+            format!(
+                r#"import Pkg{pk}::WIDTH;
+import Pkg{pk}::Kind;
+import Pkg{pk}::inc;
+
+module Imp{s} (
+    i_d: input  logic<WIDTH>,
+    o_d: output logic<WIDTH>,
+) {{
+    let k: Kind = Kind::Done;
+    always_comb {{
+        o_d = inc(i_d);
+        if k == Kind::Idle {{
+            o_d = 0;
+        }}
+    }}
+}}
+"#
+            )
+        }
+        // ---- type_dag candidates: mutual instantiation = CyclicTypeDependency (post_pass1) -------
+        "cyc" => format!(
+            r#"module CycA{s} {{
+    inst u: CycB{s};
+}}
+
+module CycB{s} {{
+    inst u: CycA{s};
+}}
+"#
+        ),
+        // ---- reference candidates: an identifier that resolves nowhere ---------------------------
+        "undef" => format!(
+            r#"module Undef{s} (
+    o_a: output logic,
+) {{
+    assign o_a = no_such_signal{s};
+}}
+"#
+        ),
+        // ---- resolve_interfaces: mixin + `..same` / `..converse` over default-member modports ----
+        "mixuse" => {
+            let m = g("mixsrc");
+            format!(
+                r#"interface MixDst{s} {{
+    mixin MixSrc{m};
+
+    var c: logic;
+
+    modport mp_all {{
+        c: input,
+        ..same(mp_src)
+    }}
+    modport mp_rev {{
+        c: output,
+        ..converse(mp_src)
+    }}
+    modport mp_mix {{
+        c: input,
+        ..converse(mp_part)
+    }}
+}}
+
+module MixUseM{s} (
+    p: modport MixDst{s}::mp_rev,
+) {{
+    assign p.a = 0;
+    assign p.b = 0;
+    assign p.c = 1;
+}}
+
+module MixUseS{s} (
+    p: modport MixDst{s}::mp_all,
+    o: output  logic             ,
+) {{
+    assign o = p.a[0] & p.b & p.c;
+}}
+
+module MixUseP{s} (
+    p: modport MixDst{s}::mp_mix,
+    o: output  logic             ,
+) {{
+    assign o = p.a[1] & p.c;
+}}
+
+module MixUse{s} (
+    o: output logic<2>,
+) {{
+    inst i : MixDst{s};
+    inst m : MixUseM{s} (
+        p: i,
+    );
+    inst sl: MixUseS{s} (
+        p: i   ,
+        o: o[0],
+    );
+    inst j : MixDst{s};
+    assign j.a = 0;
+    assign j.c = 0;
+    inst pp: MixUseP{s} (
+        p: j   ,
+        o: o[1],
+    );
+}}
+"#
+            )
+        }
         "ifdef" => format!(
             r#"module IfDef{s} (
     i_a: input  logic,
@@ -448,15 +769,25 @@ endmodule
 /// A generated project: 1–3 providers of each needed kind, consumers referring to them, file
 /// order shuffled. Deterministic in `seed`.
 pub fn generated(seed: u64, nfiles: usize) -> FileSet {
+    generated_ex(seed, nfiles, false)
+}
+
+/// `errs`: also draw from `CONSUMERS_ERR` (projects with post-pass diagnostics).
+pub fn generated_ex(seed: u64, nfiles: usize, errs: bool) -> FileSet {
     let mut r = Rng::new(seed ^ 0x5EED_F11E);
+    let mut kinds: Vec<&str> = CONSUMERS.to_vec();
+    if errs {
+        kinds.extend_from_slice(CONSUMERS_ERR);
+        kinds.extend_from_slice(CONSUMERS_ERR);
+    }
     let nfiles = nfiles.clamp(2, 12);
     let mut files: FileSet = vec![];
     let mut have: BTreeMap<&str, Vec<String>> = BTreeMap::new();
     let mut n = 0usize;
-    let ncons = (nfiles / 2).max(1);
+    let ncons = (nfiles * 2 / 3).max(1);
     let mut cons: Vec<&str> = vec![];
     for _ in 0..ncons {
-        cons.push(*r.pick(CONSUMERS));
+        cons.push(*r.pick(&kinds));
     }
     // providers required by the chosen consumers, then filler providers
     for c in &cons {
@@ -468,6 +799,12 @@ pub fn generated(seed: u64, nfiles: usize) -> FileSet {
                 have.entry(k).or_default().push(s);
             }
         }
+    }
+    if r.chance(1, 2) {
+        let s = format!("{n}");
+        n += 1;
+        files.push((format!("mix_{s}.veryl"), provider("mix", &s, &mut r)));
+        have.entry("mix").or_default().push(s);
     }
     while files.len() + cons.len() < nfiles {
         let k = *r.pick(PROVIDERS);
@@ -521,6 +858,9 @@ pub struct RunOut {
     pub errors: usize,
     /// per file: real (ns-hash, name-hash) keys of the symbols whose token comes from it
     pub keys: BTreeMap<String, Vec<(String, String)>>,
+    /// per file: `Debug` of the fragment watermark taken before it (generator quality: are the
+    /// pending-list lengths pairwise different?)
+    pub watermarks: Vec<String>,
 }
 
 pub struct RunCfg {
@@ -564,6 +904,69 @@ fn symbols_debug() -> String {
     out
 }
 
+/// Tables without a dump function, probed key by key over the whole id range: literals and
+/// definitions (pass 1), msb / connect-operation / inferred-generic tables (post_pass1), doc comments.
+fn probe_dumps(d: &mut BTreeMap<String, String>, suffix: &str, files: &[(String, String)]) {
+    use veryl_analyzer::{connect_operation_table, definition_table, generic_inference_table, literal_table, msb_table};
+    use veryl_parser::resource_table::{StrId, TokenId};
+    use veryl_parser::veryl_token::{Token, TokenSource};
+    let (mut lit, mut msb, mut conn, mut inf) = (String::new(), String::new(), String::new(), String::new());
+    for id in 1..=resource_table::peek_token_id() {
+        let t = TokenId(id);
+        if let Some(x) = literal_table::get(&t) {
+            lit.push_str(&format!("TokenId({id}) {x:?}\n"));
+        }
+        if let Some(x) = msb_table::get(t) {
+            msb.push_str(&format!("TokenId({id}) dim={x}\n"));
+        }
+        let tok = Token { id: t, text: StrId(0), line: 0, column: 0, length: 0, pos: 0, source: TokenSource::External };
+        if let Some(x) = connect_operation_table::get(&tok) {
+            conn.push_str(&format!("TokenId({id}) {x:?}\n"));
+        }
+        if let Some(x) = generic_inference_table::get_inferred(t) {
+            inf.push_str(&format!("TokenId({id}) {x:?}\n"));
+        }
+    }
+    let small = files.iter().map(|f| f.1.len()).sum::<usize>() < 40_000;
+    let mut defs = String::new();
+    for id in 1..=definition_table::peek_definition_id() {
+        if let Some(x) = definition_table::get(veryl_analyzer::definition_table::DefinitionId(id)) {
+            let dbg = format!("{x:?}");
+            if small {
+                defs.push_str(&format!("DefinitionId({id}) {dbg}\n"));
+            } else {
+                // large projects: structure only (every digit run masked), one hash per definition
+                let mut masked = String::with_capacity(dbg.len());
+                for c in dbg.chars() {
+                    if c.is_ascii_digit() {
+                        if !masked.ends_with('0') {
+                            masked.push('0');
+                        }
+                    } else {
+                        masked.push(c);
+                    }
+                }
+                defs.push_str(&format!("DefinitionId({id}) len={} h={:x}\n", masked.len(), fnv(masked.as_bytes())));
+            }
+        }
+    }
+    let mut doc = String::new();
+    for (name, code) in files {
+        let path = resource_table::insert_path(Path::new(name));
+        for line in 0..=(code.lines().count() as u32 + 1) {
+            if let Some(x) = veryl_parser::doc_comment_table::get(path, line) {
+                doc.push_str(&format!("{name}:{line}: {:?}\n", format!("{x}")));
+            }
+        }
+    }
+    d.insert(format!("literals{suffix}"), lit);
+    d.insert(format!("msbtab{suffix}"), msb);
+    d.insert(format!("conntab{suffix}"), conn);
+    d.insert(format!("inferred{suffix}"), inf);
+    d.insert(format!("defs{suffix}"), defs);
+    d.insert(format!("doc{suffix}"), doc);
+}
+
 fn take_dumps(d: &mut BTreeMap<String, String>, suffix: &str) {
     d.insert(format!("symtab{suffix}"), symbol_table::dump());
     d.insert(format!("symbols{suffix}"), symbols_debug());
@@ -588,6 +991,7 @@ fn run_inner(files: &[(String, String)], steps: Vec<Step>, cfg: &RunCfg) -> RunO
         }
         match step {
             Step::Restore(f) => {
+                out.watermarks.push(format!("{:?}", fragment_cache::watermark()));
                 scope::set_project("prj".into(), true);
                 let r = fragment_cache::restore(&f, "prj".into()).map_err(|e| e.to_string());
                 out.restored.push(Some(r));
@@ -597,6 +1001,7 @@ fn run_inner(files: &[(String, String)], steps: Vec<Step>, cfg: &RunCfg) -> RunO
             }
             Step::Parse => {
                 let wm = fragment_cache::watermark();
+                out.watermarks.push(format!("{wm:?}"));
                 let parser = match Parser::parse(code, &name.as_str()) {
                     Ok(p) => p,
                     Err(e) => {
@@ -612,9 +1017,18 @@ fn run_inner(files: &[(String, String)], steps: Vec<Step>, cfg: &RunCfg) -> RunO
                 out.errors += errs.iter().filter(|e| e.is_error()).count();
                 out.pass1.push(errs.iter().map(|e| render(e).1).collect());
                 if cfg.capture {
-                    let f = fragment_cache::capture(Path::new(name), code, &wm)
-                        .map_err(|e| e.to_string())
-                        .and_then(|f| f.to_bytes().map_err(|e| e.to_string()));
+                    // a panic inside capture must not take the whole run down: it is reported as
+                    // the capture result of this file
+                    let f = panic::catch_unwind(panic::AssertUnwindSafe(|| {
+                        fragment_cache::capture(Path::new(name), code, &wm)
+                            .map_err(|e| e.to_string())
+                            .and_then(|f| f.to_bytes().map_err(|e| e.to_string()))
+                    }))
+                    .unwrap_or_else(|_| {
+                        veryl_parser::fragment_codec::end_encode();
+                        veryl_analyzer::fragment_codec::end_encode();
+                        Err("panic".to_string())
+                    });
                     out.fragments.push(Some(f));
                 } else {
                     out.fragments.push(None);
@@ -627,6 +1041,7 @@ fn run_inner(files: &[(String, String)], steps: Vec<Step>, cfg: &RunCfg) -> RunO
     // the state restore must reproduce: right after pass 1 of every file
     if cfg.want_dumps {
         take_dumps(&mut out.dumps, "");
+        probe_dumps(&mut out.dumps, "", files);
     }
     for e in Analyzer::analyze_post_pass1() {
         if e.is_error() {
@@ -639,6 +1054,7 @@ fn run_inner(files: &[(String, String)], steps: Vec<Step>, cfg: &RunCfg) -> RunO
     // compared with ids stripped and rows sorted
     if cfg.want_dumps {
         take_dumps(&mut out.dumps, "+post");
+        probe_dumps(&mut out.dumps, "+post", files);
     }
     // real per-file symbol keys (for the M-Register correspondence)
     for s in symbol_table::get_all() {
